@@ -57,8 +57,14 @@ static void harness_setup(void) {
 		find_bcurve("R17z random a=0", 0, 2, 0);
 		for (int i = 0; i < ntc; i++) printf("@INFO binary curve %d: %s b=%llx order=%ld = %ld * %ld\n", i, TC[i].name, (unsigned long long)TC[i].b.w[0], TC[i].order, TC[i].h, TC[i].r);
 	} else {
+#if FB_POLYN == 163
+		int t[] = {7, 6, 3}; gf_set_poly(163, t, 3); fb_param_set(NIST_163);
+#elif FB_POLYN == 233
+		int t[] = {74}; gf_set_poly(233, t, 1); fb_param_set(NIST_233);
+#else
 		int t[] = {12, 7, 5}; gf_set_poly(283, t, 3);
 		fb_param_set(NIST_283);
+#endif
 	}
 	/* the library's polynomial must be the reference's */
 	gf2 lp = gf_zero(); memcpy(lp.w, fb_poly_get(), sizeof(fb_st)); gf_setbit(&lp, GF_M);
@@ -334,7 +340,13 @@ static void enumerate(void) {
 #if WSIZE != 64
 	int ncur = ntc; long cids[8]; for (int i = 0; i < ncur; i++) cids[i] = i;
 #else
+#if FB_POLYN == 163
+	int ncur = 2; long cids[2] = {NIST_B163, NIST_K163};
+#elif FB_POLYN == 233
+	int ncur = 2; long cids[2] = {NIST_B233, NIST_K233};
+#else
 	int ncur = 2; long cids[2] = {NIST_B283, NIST_K283};
+#endif
 #endif
 	for (int ci = 0; ci < ncur; ci++) {
 		char bn[64]; snprintf(bn, sizeof bn, "binary-curve-%ld", cids[ci]);
